@@ -612,6 +612,82 @@ def sweep_c12(rng, tier):
                     break
     finally:
         sys.setswitchinterval(old)
+    # 3b. deterministic lock-step schedules (no reliance on the OS scheduler): two threads parse the same *cold* texts; a trace
+    #     hook hands the turn to the other thread after every k-th function call inside the package, for several k — so one
+    #     thread observes the other in the middle of whatever it does at call granularity
+    class _Lockstep:
+        def __init__(self, n, period, lag=0):
+            self.cv = threading.Condition(); self.turn = 0; self.alive = [True] * n; self.period = period; self.count = [0] * n; self.n = n; self.lag = lag
+
+        def _next(self, i):
+            for d in range(1, self.n + 1):
+                j = (i + d) % self.n
+                if self.alive[j]: return j
+            return i
+
+        def wait_turn(self, i):
+            with self.cv:
+                while self.turn != i and self.alive[self.turn]:
+                    self.cv.wait(0.5)
+
+        def step(self, i):
+            self.count[i] += 1
+            if i == 0 and self.count[i] <= self.lag: return          # head start: thread 0 runs `lag` calls ahead of the others
+            if self.count[i] % self.period: return
+            with self.cv:
+                self.turn = self._next(i); self.cv.notify_all()
+                while self.turn != i and self.alive[self.turn]:
+                    self.cv.wait(0.5)
+
+        def done(self, i):
+            with self.cv:
+                self.alive[i] = False
+                if self.turn == i: self.turn = self._next(i)
+                self.cv.notify_all()
+    # (switch period, head start of thread 0): thread 1 follows thread 0 at a constant distance of `lag` calls
+    scheds = [(1, 0), (7, 0), (40, 0)] + [(3, lag) for lag in ([10, 25, 50, 75, 100, 130, 160, 200, 240, 280, 330, 400, 500, 700, 1000] if tier == "thorough" else [20, 60, 110, 160, 210, 260, 330, 450])]
+    for period, lag in scheds:
+        # cold = a *shape* (sequence of pattern ids) this process has not parsed before: fragment soups, a fresh one per schedule
+        _fr = ["zwei", "abends", "am Dienstag", "in the morning", "12 am", "next week", "5th", "tomorrow", "8pm", "friday", "morgen", "um 8", "at noon", "heute", "3 days", "for 2 hours", "monday",
+               "5.5.", "may", "2019", "8 uhr", "early", "late", "night", "9-5", "von 9 bis 11", "17:30", "half past 3", "viertel vor 4", "12.12.2020", "next friday", "this evening", "first", "last", "eom",
+               "übermorgen", "yesterday", "1730", "3 o'clock", "midnight", "until", "before", "nach", "7.30 a.m.", "dec 24", "31/12/2019", "sonntag", "thu", "quarter to nine", "half an hour"]
+        cold2 = [" ".join(rng.sample(_fr, rng.randint(2, 3))) for _ in range(3)]
+        ls = _Lockstep(2, period, lag)
+        res2 = [None, None]; err2 = []
+
+        def mk_tracer(i):
+            def tr(frame, event, arg):
+                if event == "call" and "/ctparse/" in frame.f_code.co_filename:
+                    ls.step(i)
+                return None
+            return tr
+
+        def worker2(i):
+            try:
+                ls.wait_turn(i)
+                sys.settrace(mk_tracer(i))
+                out = {}
+                for t in cold2:
+                    out[t] = norm(stream_digest(t, ts, dict(timeout=0)))
+                res2[i] = out
+            except Exception as e:
+                err2.append("%s: %s" % (type(e).__name__, e))
+            finally:
+                sys.settrace(None)
+                ls.done(i)
+        th2 = [threading.Thread(target=worker2, args=(i,)) for i in range(2)]
+        for x in th2: x.start()
+        for x in th2: x.join(300)
+        dist["lock-step schedules"] += 1
+        solo2 = {t: norm(stream_digest(t, ts, dict(timeout=0))) for t in cold2}
+        if err2:
+            fails.append({"text": cold2[0], "ts": list(ts), "opts": {"threads": 2, "texts": cold2, "lockstep_period": period, "lag": lag}, "expected": "no exception", "observed": err2[0], "what": "C12 threads (lock-step)"})
+        for i, r in enumerate(res2):
+            if r is not None and r != solo2:
+                bad = [t for t in solo2 if r.get(t) != solo2[t]]
+                fails.append({"text": bad[0], "ts": list(ts), "opts": {"threads": 2, "texts": cold2, "lockstep_period": period, "lag": lag}, "expected": "same stream as single-threaded",
+                              "observed": "thread %d got a different stream for %d texts under the lock-step schedule (switch every %d calls, thread 0 ahead by %d calls)" % (i, len(bad), period, lag), "what": "C12 threads (lock-step)"})
+                break
     # 4. hash seeds (fresh interpreters)
     seeds = [0, 1, 2, 42, "random"] if tier == "thorough" else [0, 1, "random"]
     base = None
